@@ -780,25 +780,31 @@ def static_obligations(run):
             run.not_proved.append(f"{t} is a partial result (see comment in C07/Props.v)")
     run.notes["print_assumptions"] = pa
     run.not_proved += [
-        "partial-trace identity Tr_{S^c}[(1 x D) rho (1 x D)^+] = Tr_{S^c} rho (premise obs_outside of light_cone_reduced_state)",
-        "that running the re-indexed light-cone circuit on |cone| qubits equals running the kept gates on all n qubits "
-        "and tracing out the rest (needs the matrix semantics of C01; exercised by the exact-execution test only)",
-        "commutation of concrete gate matrices with disjoint supports (premise of fuse_same_final_state; belongs to C01)",
-        "matrix_fused (the matrix of a fused group = product of its members): exercised by the exact-execution test only"]
+        "light cone, last step: running the RE-INDEXED kept gates on |cone| qubits (with the reduced initial state) equals "
+        "running the kept gates on all n qubits and tracing out the rest; light_cone_reduced_state_matrices compares "
+        "full circuit and kept gates both on n qubits (the re-indexing map itself is proved to be an order-preserving "
+        "injection); the step is exercised by the exact-execution test only",
+        "light cone: dropped gates in controlled_by form (operator cembed): light_cone_reduced_state_matrices needs the "
+        "operator of every dropped gate as embed n qs U with U^+ U = 1 (proved for all gates not in controlled_by form, "
+        "plain_unitary_gates_qualify); cembed n cs ts M = embed n (cs++ts) (controlled M) is not proved",
+        "light cone: dropped non-unitary operations (collapsing measurements, channels) are outside "
+        "light_cone_reduced_state_matrices; the abstract light_cone_reduced_state covers them given its premise",
+        "matrix_fused (the matrix a FusedGate object computes = product of its members) belongs to C01 (ProofsFused); "
+        "here it is exercised by the exact-execution test"]
 
 
 def main(run):
     rng = random.Random(run.seed)
     run.trusted += ["Coq 8.16.1 kernel, vm_compute",
                     "abstraction of a gate to (identity, gate.qubits, kind in {ordinary, M, special}) done by this harness",
-                    "the commutation of gates with disjoint supports (sem_respects is stated for every interpretation with "
-                    "that property; the instance for matrices belongs to C01)",
+                    "Base/Sem.v, SemPtrace.v, SemProps.v and C01/Spec.v (matrix semantics: gate_op, circ_op, sandwich, reduced; "
+                    "gate_op_disjoint_commute and ptrace_ignores_outside are proved there, closed) used by C07/InstMat.v",
                     "harness/c07.py observation code (wraps _Queue.from_fused and Gate.on_qubits at run time)"]
     run.assumptions += ["a FusedGate in the input circuit is an opaque special letter (its own matrix = product of its members is "
                         "matrix_fused, exercised by the exact-execution test)",
                         "circuits contain no noise channels (fusion absorbs a Channel into a FusedGate whose execution raises)",
-                        "light_cone_ok's last algebraic step (partial trace ignores operations outside S) is a premise of "
-                        "the corollary, checked only by the exact-execution test"]
+                        "fuse_equiv_matrices / light_cone_reduced_state_matrices: every letter stands for a well-formed matrix "
+                        "gate acting inside the letter's support (mvalid); exact arithmetic over a commutative semiring"]
     static_obligations(run)
     quick = run.tier == "quick"
     run_fuse(run, rng, 520 if quick else 5200, n_exec=100 if quick else 1000)
